@@ -7,7 +7,7 @@
 EXTENDS Naturals, Integers, Sequences, TLC, Json
 
 CONSTANTS Side, Depth
-Sizes == {0, 1, 2, 3, 5, -1, -2}
+Sizes == {0, 1, 2, 3, 4, 5, 8, -1, -2}
 ROps == {"ensure", "r1", "rn", "skip", "pad"}
 WOps == {"prepare", "w1", "wn", "skipw", "padw"}
 \* calls that exist: single-byte calls carry no size, block transfers cannot express sizes near 2^64
